@@ -698,6 +698,9 @@ func (d *pcDriver) publishAction(p *simkit.Parked) *simkit.Action {
 				d.m.failedUpdate(calls)
 				d.r.Logf("~model", "cancelled refresh publishes partial results")
 			} else {
+				if missing := d.notAsked(calls); missing != "" {
+					d.r.Violate(d.mode+".refresh", "a refresh that was not cancelled publishes without having asked %s (%d sources configured, %d asked): what that source reports cannot be in the cache", missing, len(d.srcs), len(calls))
+				}
 				d.m.applyRefresh(calls, d.lastSrcRel)
 				first := d.r.Step()
 				for _, c := range calls {
@@ -715,6 +718,9 @@ func (d *pcDriver) publishAction(p *simkit.Parked) *simkit.Action {
 			if op == nil || op.kind != pcGet {
 				d.r.Violate("pc.harness", "miss publication without a Get in flight")
 			} else {
+				if missing := d.notAsked(op.calls); missing != "" && d.m.wouldBeAbsent(op.calls) {
+					d.r.Violate(d.mode+".get", "Get(%s) remembers the provider as absent without having asked %s", op.prov, missing)
+				}
 				d.m.applyMiss(op.prov, op.calls, d.lastSrcRel)
 				op.calls = nil
 				op.published = true
@@ -726,6 +732,31 @@ func (d *pcDriver) publishAction(p *simkit.Parked) *simkit.Action {
 		}
 		d.r.Release(p, nil)
 	}}
+}
+
+// notAsked names the configured sources that are not among the calls.
+func (d *pcDriver) notAsked(calls []*srcCall) string {
+	asked := map[*simSource]bool{}
+	for _, c := range calls {
+		asked[c.src] = true
+	}
+	var out []string
+	for _, s := range d.srcs {
+		if !asked[s] {
+			out = append(out, s.name)
+		}
+	}
+	return strings.Join(out, ",")
+}
+
+// wouldBeAbsent: no call of a miss-fetch gave a record and none was cut short.
+func (m *pcModel) wouldBeAbsent(calls []*srcCall) bool {
+	for _, c := range calls {
+		if c.cancelled || c.failed || len(c.recs) > 0 {
+			return false
+		}
+	}
+	return true
 }
 
 func verOf(pi *model.ProviderInfo) int {
@@ -813,7 +844,22 @@ func pcSetupMode(r *simkit.Run, nsrc int, ttl, refreshIn time.Duration, preload,
 			d.net.AddServer(&simkit.Server{Name: s.name, Addr: host, Handler: s})
 			s.real = must(pcache.NewHTTPSource("http://"+host, &http.Client{Transport: d.net.Transport(), Timeout: pcHTTPTimeout}))
 		}
-		so = append(so, pcache.WithSource(s))
+	}
+	// the sources are configured by one option each, by one option for all,
+	// or by a mix: the cache has the same sources either way
+	var all []pcache.ProviderSource
+	for _, s := range d.srcs {
+		all = append(all, s)
+	}
+	switch r.Tape.Choose(3, "sourceOptions") {
+	case 0:
+		for _, s := range all {
+			so = append(so, pcache.WithSource(s))
+		}
+	case 1:
+		so = append(so, pcache.WithSource(all...))
+	default:
+		so = append(so, pcache.WithSource(all[:len(all)-1]...), pcache.WithSource(all[len(all)-1]))
 	}
 	if initial != nil {
 		initial(d)
